@@ -187,7 +187,8 @@ REQUIRED_PROBES = {
             "out_of_order_completions"],
     "C11": ["fault_counts.F7_caller_edit", "fault_counts.F6_cache_flood", "fault_counts.F6_cache_evict_all",
             "reach_probes.reuse_after_edit", "reach_probes.reuse_after_eviction", "reach_probes.cache_hits_cond",
-            "reach_probes.cache_hits_ahb", "reach_probes.parse_caches_found"],
+            "reach_probes.cache_hits_ahb", "reach_probes.parse_caches_found",
+            "reach_probes.parse_of_exotic_white_space", "reach_probes.parse_of_exotic_white_space_after_flood"],
     "C12": ["fault_counts.F2_sibling_raise", "fault_counts.F3_sibling_cancel", "reach_probes.validity_setter_calls",
             "reach_probes.model_clause_applied", "reach_probes.fc_model_clause_applied",
             "reach_probes.more_than_16_keys_at_one_site", "out_of_order_completions"],
